@@ -236,7 +236,7 @@ pub fn run(tier: Tier) -> i32 {
     crate::engine::install_crash_handler("C05");
     let mut st = Stats::default();
     // (a) character strings
-    let k = tier.pick(4, 5);
+    let k = tier.pick(5, 6);
     let mut s0 = Stats::default();
     char_dfs(SIGMA_EXT, "", 0, 1, &mut s0, &mut |s, st| total(s, "character-strings", st));
     st = st.merge(s0);
@@ -295,7 +295,7 @@ pub fn run(tier: Tier) -> i32 {
     {
         let alpha = crate::enumr::Alphabet::new(&["a", ".", "*", "[]", "[?", "[", "]", ":", ",", "|", "||", "==", "!", "(", ")", "0", "-1", "2", "2147483647", "-2147483647", "-2147483648", "1073741824", "-1073741824", "`1`"]);
         let g = crate::gram::Grammar::new(Default::default());
-        let sl = tier.pick(6, 7);
+        let sl = tier.pick(7, 8);
         let ss = par_sweep(crate::enumr::shards(alpha.len(), 2), |p, st| {
             let mut list: Vec<String> = Vec::new();
             let (n, e) = crate::enumr::sentences(&g, &alpha, p, sl, &mut |seq| list.push(alpha.render(seq)));
